@@ -94,6 +94,40 @@ pub fn run(run: &mut Run, seed: u64, thorough: bool, replay: Option<&str>, corpu
         run.extra.push(("probe_groups".into(), pg.len().to_string()));
         cases.extend(pc);
         groups = pg;
+        // two families found necessary by round-5 seeds (both were invisible to the grammar-based streams):
+        // (1) SGR lists with a 38/48 selector that is NOT the first parameter and is cut short at every length
+        //     (`parse_extended_colors` indexes relative to the selector's position);
+        // (2) macros that invoke themselves through each invocation path — `CSI n * z` at top level and the
+        //     in-DCS path `ESC P … ESC [ n * z` — defined as text and as hex macros (the nesting limit must hold on
+        //     EVERY path; a missing limit overflows the stack = worker death)
+        {
+            let t = |label: &str, st: &str| Token { label: label.into(), chars: st.chars().collect() };
+            let mut n = 0usize;
+            for emu in [Emu::Ansi(0), Emu::Ansi(2), Emu::Avatar, Emu::PCBoard, Emu::CtrlA, Emu::Renegade] {
+                for pre in ["", "0;", "1;", "0;5;", "1;4;7;"] {
+                    for sel in ["38", "48"] {
+                        for tail in ["", ";2", ";2;10", ";2;10;20", ";2;10;20;30", ";5", ";5;200", ";2;999;999;999", ";9", ";2;;;"] {
+                            for post in ["", ";1"] {
+                                let st = format!("\x1b[{}{}{}{}mX", pre, sel, tail, post);
+                                cases.push(case_line(emu, 80, 25, &[t("SGRcut", &st)]));
+                                n += 1;
+                            }
+                        }
+                    }
+                }
+            }
+            for emu in [Emu::Ansi(0), Emu::Avatar, Emu::Renegade] {
+                for (body_hex, label) in [("1B5B302A7A", "csi-self"), ("1B501B5B302A7A", "dcs-self"), ("581B501B5B302A7A", "x-dcs-self"), ("1B5B312A7A", "csi-other"), ("1B501B5B312A7A", "dcs-other")] {
+                    for top in ["\x1b[0*z", "\x1bP\x1b[0*z", "\x1b[1*z"] {
+                        // macro 0 and macro 1 (mutual recursion when the body names the other one), hex definitions
+                        let st = format!("\x1bP0;0;1!z{}\x1b\\\x1bP1;0;1!z{}\x1b\\{}Y", body_hex, body_hex.replace("302A", "312A").replace("312A7A", "302A7A"), top);
+                        cases.push(case_line(emu, 80, 25, &[t(&format!("MACREC-{}", label), &st)]));
+                        n += 1;
+                    }
+                }
+            }
+            run.extra.push(("sgr_cut_and_macro_recursion_cases".into(), n.to_string()));
+        }
         // row-table family: ragged shapes x every content command (compared with Model/Rows via the `rows` driver)
         let rc = crate::rowsfam::cases(seed, thorough);
         run.extra.push(("rows_family_cases".into(), rc.len().to_string()));
